@@ -136,7 +136,16 @@ func runFault(c *hx.Ctx, seq *Seq, counts []int, K int) {
 			// the same operations has the same defect (a restarted process accepted the stale snapshot): that
 			// is the crash class that survives the repair, not a memory/disk disagreement caused by the fault.
 			free := strings.Split(or.Ask(fmt.Sprintf("fault %x %d ; ", W, 10000)+strings.Join(w.mops, " ; "), 1)[0], " # ")
-			if len(free) == 3 && strings.Fields(free[1])[0] != "1" {
+			if os.Getenv("C05_DEBUG") != "" {
+				fmt.Printf("debug: fault model %q\n       free model %q\n", mp, free)
+			}
+			// ... or the wrong answer first appears right after a restart (every operation since the injected failure
+			// was checked and agreed with the disk): the new process accepted the stale mid-life snapshot - because
+			// the restart was ungraceful, or because the failing write WAS the graceful restart's own snapshot. (The
+			// fault-free re-run is not conclusive when later stores were built on top of a failed one: they do not
+			// link in a run where it succeeds.) The model, given the same failure, predicts the same false negative.
+			atRestart := o.K == "G" || o.K == "U"
+			if atRestart || (len(free) == 3 && strings.Fields(free[1])[0] != "1") {
 				c.Hist["stale-midlife-snapshot-accepted-by-restarted-process"]++
 				c.Violation("crash:stale-filter-snapshot:event-false-negatives", where+fmt.Sprintf("after op %d the restarted process answers from a stale mid-life snapshot (as in the fault-free run): %s", idx, evWhat), cs, false)
 				if mp[0] != enc {
